@@ -133,9 +133,11 @@ def run(ctx):
         "stand-alone readers (cff.Read on the stream of (*cff.Font).Write; header.Read+ReadTableBytes, cmap.Decode, "
         "glyf.Decode, gtab.Read, gdef.Read, name.Decode, post.Read, os2.Read, head.Read, maxp.Read, hmtx.Decode, "
         "kern.Read on the tables Font.Write / kern.Info.Encode produced): a cut strictly inside the writer's extent "
-        "must be rejected, except at legitimately optional ends: OS/2 may end after 68, 78 or 86 bytes (older "
-        "versions of the table); a loca table has no length of its own, every whole number of entries is a complete "
-        "table, so for a cut loca only 'no panic' is demanded; a container may lose its trailing padding",
+        "must be rejected, except at ends that are complete for a stream with these header fields: an OS/2 table may "
+        "end after its 68-byte core whatever version it declares (the reader's documented leniency for short Apple "
+        "tables); with the version word set to 0 or 1 it is decoded up to byte 78 only, with 2..5 it is complete only at "
+        "96 bytes (streams of every version 0..5 are run); a loca table is complete after every whole entry (2 or 4 "
+        "bytes by head.indexToLocFormat) and nowhere inside one; a container may lose its trailing padding",
     ]
     # 1. the model
     if ctx.quick():
